@@ -146,13 +146,22 @@ func BuildEmitter(p *core.Program, nk *NodeKinds, vm *VMModel) (*Emitter, string
 	self, _ := info.Defs[ds[0].Func.Name].(*types.Func)
 	methods := map[*types.Func]*ast.FuncDecl{}
 	for _, fd := range p.FuncDecls("compiler") {
-		if fd.Body == nil || fd.Recv == nil {
+		if fd.Body == nil {
 			continue
 		}
-		if f, ok := info.Defs[fd.Name].(*types.Func); ok {
-			if core.RecvName(fd) == ct.Obj().Name() {
+		f, ok := info.Defs[fd.Name].(*types.Func)
+		if !ok {
+			continue
+		}
+		if fd.Recv == nil {
+			// a plain function that selects an opcode (returns a byte) is part of the scheme
+			if res := f.Type().(*types.Signature).Results(); res.Len() == 1 && isByte(res.At(0).Type()) && f != em.Encode {
 				methods[f] = fd
 			}
+			continue
+		}
+		if core.RecvName(fd) == ct.Obj().Name() {
+			methods[f] = fd
 		}
 	}
 	for kname, cc := range ds[0].Clauses {
@@ -177,6 +186,9 @@ func BuildEmitter(p *core.Program, nk *NodeKinds, vm *VMModel) (*Emitter, string
 			}
 			t := em.interpret(kname, path, self)
 			t.Index = i
+			if contradictoryStringTests(info, t) {
+				continue // e.g. node.Name == "any" and node.Name == "none" both taken: no run takes this path
+			}
 			em.Templates[kname] = append(em.Templates[kname], t)
 		}
 	}
@@ -278,6 +290,28 @@ func (em *Emitter) classify() string {
 			}
 			return true
 		})
+		// the pool may be appended by a helper the primitive delegates to
+		if !appendsConst {
+			ast.Inspect(fd.Body, func(n ast.Node) bool {
+				if c, ok := n.(*ast.CallExpr); ok {
+					if callee := CalleeOf(info, c); callee != nil && callee != fn {
+						if _, hfd := p.DeclOf(callee); hfd != nil && hfd.Body != nil && core.RecvName(hfd) == em.CompType.Obj().Name() {
+							ast.Inspect(hfd.Body, func(m ast.Node) bool {
+								if as, ok := m.(*ast.AssignStmt); ok && len(as.Lhs) == 1 && len(as.Rhs) == 1 {
+									if ac, ok := as.Rhs[0].(*ast.CallExpr); ok {
+										if id, ok := ac.Fun.(*ast.Ident); ok && id.Name == "append" && len(ac.Args) >= 1 && isField(as.Lhs[0], constField) && isField(ac.Args[0], constField) {
+											appendsConst = true
+										}
+									}
+								}
+								return true
+							})
+						}
+					}
+				}
+				return true
+			})
+		}
 		np := sig.Params().Len()
 		isBytes := func(t types.Type) bool {
 			sl, ok := t.(*types.Slice)
@@ -290,7 +324,7 @@ func (em *Emitter) classify() string {
 		switch {
 		case appendsByte && np >= 1 && isByte(sig.Params().At(0).Type()) && sig.Variadic():
 			em.Prims[fn] = "emit"
-		case appendsConst && np == 1 && sig.Results().Len() == 1 && isBytes(sig.Results().At(0).Type()):
+		case appendsConst && np == 1 && sig.Results().Len() == 1 && isBytes(sig.Results().At(0).Type()) && isEmptyInterface(sig.Params().At(0).Type()):
 			em.Prims[fn] = "makeconst"
 		case writesByteAt && np == 1 && sig.Results().Len() == 0:
 			em.Prims[fn] = "patch"
@@ -313,6 +347,11 @@ func (em *Emitter) classify() string {
 		return "operand encoder func(uint16) []byte not found"
 	}
 	return ""
+}
+
+func isEmptyInterface(t types.Type) bool {
+	it, ok := t.Underlying().(*types.Interface)
+	return ok && it.NumMethods() == 0
 }
 
 func isByte(t types.Type) bool {
@@ -729,3 +768,99 @@ func (em *Emitter) AllTemplates() []*Template {
 }
 
 var _ = token.ADD
+
+// contradictoryStringTests: the path's tests of one string-valued expression against constants
+// cannot all hold — two different equalities taken, an equality taken whose constant is not
+// among the labels of the enclosing case clause, or every label excluded by failed equalities.
+func contradictoryStringTests(info *types.Info, t *Template) bool {
+	type st struct {
+		allowed map[string]bool // nil = unconstrained
+		must    map[string]bool
+		not     map[string]bool
+	}
+	by := map[string]*st{}
+	get := func(k string) *st {
+		if by[k] == nil {
+			by[k] = &st{must: map[string]bool{}, not: map[string]bool{}}
+		}
+		return by[k]
+	}
+	constStr := func(e ast.Expr) (string, bool) {
+		if tv, ok := info.Types[e]; ok && tv.Value != nil && tv.Value.Kind() == constant.String {
+			return constant.StringVal(tv.Value), true
+		}
+		return "", false
+	}
+	for _, c := range t.Conds {
+		if c.Case != nil && c.Case.Tag != nil && c.Case.Clause != nil && !c.Case.Default {
+			all := true
+			set := map[string]bool{}
+			for _, e := range c.Case.Clause.List {
+				if v, ok := constStr(e); ok {
+					set[v] = true
+				} else {
+					all = false
+				}
+			}
+			if all && len(set) > 0 {
+				x := get(ExprStr(c.Case.Tag))
+				if x.allowed == nil {
+					x.allowed = set
+				} else {
+					for k := range x.allowed {
+						if !set[k] {
+							delete(x.allowed, k)
+						}
+					}
+				}
+			}
+			continue
+		}
+		if c.Case != nil || c.Expr == nil {
+			continue
+		}
+		for _, atom := range Conjuncts(c.Expr, !c.Taken) {
+			b, ok := Unparen(atom).(*ast.BinaryExpr)
+			if !ok || (b.Op != token.EQL && b.Op != token.NEQ) {
+				continue
+			}
+			var subj ast.Expr
+			var lit string
+			if v, ok := constStr(b.Y); ok {
+				subj, lit = b.X, v
+			} else if v, ok := constStr(b.X); ok {
+				subj, lit = b.Y, v
+			} else {
+				continue
+			}
+			x := get(ExprStr(subj))
+			if b.Op == token.EQL {
+				x.must[lit] = true
+			} else {
+				x.not[lit] = true
+			}
+		}
+	}
+	for _, x := range by {
+		if len(x.must) > 1 {
+			return true
+		}
+		for m := range x.must {
+			if x.not[m] || (x.allowed != nil && !x.allowed[m]) {
+				return true
+			}
+		}
+		if x.allowed != nil {
+			left := 0
+			for k := range x.allowed {
+				if !x.not[k] {
+					left++
+				}
+			}
+			if left == 0 {
+				return true
+			}
+		}
+	}
+	return false
+}
